@@ -23,6 +23,7 @@ import (
 	"go/parser"
 	"go/printer"
 	"go/token"
+	"hash/fnv"
 	"os"
 	"path/filepath"
 	"sort"
@@ -106,6 +107,7 @@ func main() {
 	sort.Strings(files)
 	fset := token.NewFileSet()
 	var sites []site
+	var contexts [][3]string
 	status := 0
 	for _, p := range files {
 		f, err := parser.ParseFile(fset, p, nil, 0)
@@ -136,6 +138,7 @@ func main() {
 			continue
 		}
 		rp := rel(root, p)
+		firstSite := len(sites)
 		for _, d := range f.Decls {
 			fn := "<package-level>"
 			if fd, ok := d.(*ast.FuncDecl); ok {
@@ -172,6 +175,45 @@ func main() {
 				return true
 			})
 		}
+		// the text the justification of a Put was written against: the function that contains it and every
+		// function of the same file that mentions the field (selector) whose value is put back
+		fields := map[string]bool{}
+		fnsWithPut := map[string]bool{}
+		for _, st := range sites[firstSite:] {
+			if strings.HasSuffix(st.callee, ".Put") {
+				fnsWithPut[st.fn] = true
+				if i := strings.LastIndex(st.arg, "."); i >= 0 && !strings.ContainsAny(st.arg[i+1:], "()[] ,") {
+					fields[st.arg[i+1:]] = true
+				}
+			}
+		}
+		if len(fnsWithPut) > 0 {
+			for _, d := range f.Decls {
+				fd, ok := d.(*ast.FuncDecl)
+				if !ok || fd.Body == nil {
+					continue
+				}
+				name := recvName(fd)
+				relevant := fnsWithPut[name]
+				ast.Inspect(fd.Body, func(n ast.Node) bool {
+					if as, ok := n.(*ast.AssignStmt); ok {
+						for _, l := range as.Lhs {
+							if se, ok := l.(*ast.SelectorExpr); ok && fields[se.Sel.Name] {
+								relevant = true // the ownership bookkeeping of that field lives here too
+							}
+						}
+					}
+					return !relevant
+				})
+				if relevant {
+					var buf bytes.Buffer
+					printer.Fprint(&buf, fset, fd.Body) // parsed without comments: a comment edit does not count
+					h := fnv.New64a()
+					h.Write(buf.Bytes())
+					contexts = append(contexts, [3]string{rp, name, fmt.Sprintf("%016x", h.Sum64())})
+				}
+			}
+		}
 	}
 	var b strings.Builder
 	b.WriteString("(* generated by gensites from the current source; do not edit *)\n")
@@ -192,6 +234,17 @@ func main() {
 	}
 	b.WriteString("\n(* ... and the two lists coincide (nothing justified has silently disappeared or moved) *)\n")
 	b.WriteString("Example sites_ok : gen_sites = justified_sites.\nProof. vm_compute. reflexivity. Qed.\n")
+	b.WriteString("\n(* the functions each Put was justified against (the one containing it, and every function of the same\n   file that assigns to the field whose value is put back), by fingerprint of their body: an edit there means\n   the justification in Model.Pool.site_table has to be looked at again *)\n")
+	b.WriteString("Definition gen_put_contexts : list (string * string * string) := [\n")
+	for i, c := range contexts {
+		sep := ";"
+		if i == len(contexts)-1 {
+			sep = ""
+		}
+		b.WriteString("  (" + coqStr(c[0]) + ", " + coqStr(c[1]) + ", " + coqStr(c[2]) + ")" + sep + "\n")
+	}
+	b.WriteString("].\n")
+	b.WriteString("Example put_contexts_as_justified : gen_put_contexts = justified_put_contexts.\nProof. vm_compute. reflexivity. Qed.\n")
 	if err := os.WriteFile(*out, []byte(b.String()), 0o644); err != nil {
 		fmt.Fprintln(os.Stderr, err)
 		os.Exit(2)
